@@ -82,7 +82,7 @@ OTHERS = {
 }
 
 
-def sc_step(V, natoms=1, others="zero", per_coord_delta=False, power=0.25, symbolic="f", shaped_masses=False):
+def sc_step(V, natoms=1, others="zero", per_coord_delta=False, power=0.25, symbolic="f", shaped_masses=False, reassign=False):
     from ase.units import kB
 
     from quansino.mc.fbmc import ForceBias
@@ -110,7 +110,13 @@ def sc_step(V, natoms=1, others="zero", per_coord_delta=False, power=0.25, symbo
         delta[0, 0] = d0
     else:
         delta = d0
-    fb = ForceBias(atoms, delta=delta, temperature=T, seed=3)
+    if reassign:
+        # delta and temperature are plain public attributes: set on the live driver
+        fb = ForceBias(atoms, delta=0.77, temperature=1234.0, seed=3)
+        fb.delta = delta
+        fb.temperature = T
+    else:
+        fb = ForceBias(atoms, delta=delta, temperature=T, seed=3)
     fb.masses_scaling_power = power
     if shaped_masses:
         # per-coordinate masses (public update_masses): the bound refers to the smallest of ALL of them
@@ -339,6 +345,8 @@ def _plan(tier):
         ("step", dict(natoms=2, others="zero", per_coord_delta=False, power=0.25, symbolic="f"), ("stepped",)),
         ("step", dict(natoms=1, others="zero", per_coord_delta=True, power=0.5, symbolic="delta"), ("stepped",)),
         ("step", dict(natoms=2, others="zero", per_coord_delta=False, power=0.25, symbolic="delta", shaped_masses=True), ("stepped",)),
+        ("step", dict(natoms=1, others="zero", per_coord_delta=False, power=0.25, symbolic="f", reassign=True), ("stepped",)),
+        ("step", dict(natoms=1, others="zero", per_coord_delta=False, power=0.25, symbolic="delta", reassign=True), ("stepped",)),
     ]
     if tier != "quick":
         plan.append(("step", dict(natoms=2, others="zero", per_coord_delta=True, power=1.0, symbolic="delta"), ("stepped",)))
